@@ -58,6 +58,10 @@ static void rc_got_cut_utf8(rfbClient *cl, const char *text, int len) {
   sprintf(b, "GU:%d:%d:%s:0", c ? c->id : -1, len, t); ev_add(b);
 }
 
+/* FramebufferUpdate messages digested by the pump in progress: reported as GF:id (first in the line) */
+static int rc_updates; static conn *rc_cur;
+static void rc_finished_update(rfbClient *cl) { (void)cl; rc_updates++; }
+
 static void clip_screen_setup(rfbScreenInfoPtr s) { (void)s; }
 
 static void clip_teardown(void) {
@@ -175,6 +179,7 @@ static int clip_op(const char *op, char *args) {
     rfbEnableClientLogging = FALSE;
     cl = rfbGetClient(8, 3, 4);
     cl->GotXCutText = rc_got_cut;
+    cl->FinishedFrameBufferUpdate = rc_finished_update;
     cl->GotXCutTextUTF8 = a[1] ? rc_got_cut_utf8 : NULL;
     cl->sock = sv[1];
     cl->canHandleNewFBSize = FALSE;
@@ -185,7 +190,12 @@ static int clip_op(const char *op, char *args) {
     c->cl = (rfbClientPtr)1;
     /* the client speaks first only after the server's version: create the server side, then handshake */
     c->cl = rfbNewClient(S, sv[0]);
-    if (!InitialiseRFBConnection(cl) || !SetFormatAndEncodings(cl)) ev_add("RCFAIL");
+    if (!InitialiseRFBConnection(cl)) ev_add("RCFAIL");
+    else {
+      cl->width = cl->si.framebufferWidth; cl->height = cl->si.framebufferHeight;
+      cl->updateRect.x = cl->updateRect.y = 0; cl->updateRect.w = cl->width; cl->updateRect.h = cl->height;
+      if (!cl->MallocFrameBuffer(cl) || !SetFormatAndEncodings(cl)) ev_add("RCFAIL");   /* as rfbInitClient does */
+    }
     rc_pump_server();
     print_state("rc_connect"); return 1;
   }
@@ -200,6 +210,14 @@ static int clip_op(const char *op, char *args) {
     }
     free(b);
     print_state(op); return 1;
+  }
+  if (!strcmp(op, "rc_fur")) {       /* the client asks for (and, at its next pump, digests) a full framebuffer update */
+    conn *c; sscanf(args, "%d", &a[0]); c = by_id(a[0]);
+    if (c && c->is_rc && c->rc) {
+      rfbClient *cl = (rfbClient *)c->rc;
+      if (!SendFramebufferUpdateRequest(cl, 0, 0, cl->width, cl->height, FALSE)) { char e[32]; sprintf(e, "SF:%d", c->id); ev_add(e); }
+    }
+    print_state("rc_fur"); return 1;
   }
   if (!strcmp(op, "rc_sched")) {
     conn *c; int p2 = 0; const char *q;
@@ -218,17 +236,21 @@ static int clip_op(const char *op, char *args) {
   if (!strcmp(op, "rc_pump")) {
     conn *c; sscanf(args, "%d", &a[0]); c = by_id(a[0]);
     if (c && c->is_rc && c->rc && c->cl) {
-      rfbClient *cl = (rfbClient *)c->rc; int guard = 0;
+      rfbClient *cl = (rfbClient *)c->rc; int guard = 0, gaveup = 0, k;
+      rc_updates = 0; rc_cur = c;
       in_pump = 1;      /* only what the server already wrote is consumed */
       while (guard++ < 1000 && (cl->buffered > 0 || WaitForMessage(cl, 0) > 0)) {
+        if (getenv("VDRV_DEBUG")) { int nb = 0; ioctl(cl->sock, FIONREAD, &nb); fprintf(stderr, "pump %d: buffered=%d sock=%d first=%d\n", c->id, cl->buffered, nb, cl->buffered > 0 ? (unsigned char)cl->bufoutptr[0] : -1); }
         if (!HandleRFBServerMessage(cl)) {
-          char e[32]; sprintf(e, "GD:%d", c->id); ev_add(e);
+          gaveup = 1;
           if (cl->sock == wsched_fd) wsched_fd = -1;
           close(cl->sock); cl->sock = -1; c->pfd = -1; rfbClientCleanup(cl); c->rc = NULL;
           break;
         }
       }
       in_pump = 0;
+      for (k = 0; k < rc_updates; k++) { char e[32]; sprintf(e, "GF:%d", c->id); ev_add(e); }
+      if (gaveup) { char e[32]; sprintf(e, "GD:%d", c->id); ev_add(e); }
     }
     print_state("rc_pump"); return 1;
   }
